@@ -25,7 +25,7 @@ RULE = ("cases = (transport serial|socket, greeting start|none|'Grbl 1.1', "
         "(error:20 / Error:.. / ALARM:1 / !! ..) at a chosen position, an "
         "unsolicited error/alarm line after an acknowledgement (must surface "
         "at the next write), "
-        "connection loss at the last position; handshake replies drained "
+        "connection loss at any position (later writes must raise, not hang); handshake replies drained "
         "before the first statement, or (minority, counted) not); "
         "non-trivial = a case where some ack was withheld >=1 tick, or an "
         "error / unsolicited line / loss occurred; distinct by SHA-1")
@@ -82,7 +82,7 @@ def run_case(case, cl=None):
             b["unsolicited"] = [UNSOLICITED[u % len(UNSOLICITED)] for u in st_["unsolicited"]]
         if st_.get("error") is not None:
             b["error"] = ERRORS[st_["error"] % len(ERRORS)]
-        if st_.get("lose") and k == len(case["stmts"]) - 1:
+        if st_.get("lose"):
             b["lose"] = True
         if st_.get("alarm_after") is not None and not b.get("error") and not b.get("lose"):
             b["after"] = [ERRORS[st_["alarm_after"] % len(ERRORS)]]
@@ -136,6 +136,7 @@ def run_case(case, cl=None):
             for k, (st_, txt) in enumerate(zip(case["stmts"], sent_texts)):
                 gate = f"g{k}"
                 box = {}
+                lost_before = fw.lost
                 if pending_alarm is not None:
                     # let the reader consume the unsolicited error line first
                     t0 = time.time()
@@ -181,6 +182,16 @@ def run_case(case, cl=None):
                                     f"reply was released (statement #{k}, lost={fw.lost}); {desc}")
                 kind, exc = box["r"]
                 b = behaviours[txt]
+                if lost_before:
+                    # the connection was lost at an earlier statement: every
+                    # later write must raise instead of hanging (checked by the
+                    # join above) or returning as if it had been delivered
+                    cl.add("write_after_connection_loss")
+                    if kind != "exc":
+                        raise Violation(f"write({txt!r}) returned normally although the "
+                                        f"connection was lost at an earlier statement; {desc}")
+                    results.append(kind)
+                    continue
                 if pending_alarm is not None and not b.get("lose"):
                     cl.add("unsolicited_error_between_statements")
                     if kind != "exc" or not isinstance(exc, DeviceError):
@@ -314,13 +325,16 @@ def strategy():
         "stmts": st.lists(stmt, min_size=1, max_size=8),
         "drain": st.sampled_from([True] * 9 + [False]),
         "handshake_latency": st.sampled_from([0, 40, 120]),
-        "lose_last": st.sampled_from([False, False, False, True])}).map(_finish)
+        "lose_last": st.one_of(st.just(False), st.just(False), st.just(True),
+                               st.integers(0, 7))}).map(_finish)
 
 
 def _finish(c):
-    if c.pop("lose_last"):
-        c["stmts"][-1] = dict(c["stmts"][-1], lose=True)
-        c["stmts"][-1].pop("error", None)
+    la = c.pop("lose_last")
+    if la:
+        k = -1 if la is True else la % len(c["stmts"])
+        c["stmts"][k] = dict(c["stmts"][k], lose=True)
+        c["stmts"][k].pop("error", None)
     # at most two error replies per case keeps sessions short
     errs = [i for i, s_ in enumerate(c["stmts"]) if "error" in s_]
     for i in errs[2:]:
